@@ -7,12 +7,15 @@ right sign; bit encoding and sign decoding agree with it.
 R4 re-evaluates, for the FFT path the gates use, the exact bootstrapping-chain rules of C04 (modulus switch to 2N, initial
 rotation X^(2N-barb) with the barb = 0 copy, rotation loop, extraction, test vector, final key switch).
 Not decided: FFT accuracy and the external product's error (C09/C10) and that noise stays inside the margin (C02).
+R5 no function-local static reachable from a gate is initialised from run-time values (a gate is a function of its
+arguments: the first call's key or parameters must not be remembered).
 """
 from fractions import Fraction as Fr
 from itertools import product
 
 from sa import summ, sym
-from sa.facts import Program
+import re
+from sa.facts import Program, walk
 from sa.sym import I, ZERO
 
 P = lambda p, f: sym.arrow(sym.sym(p), f)
@@ -267,6 +270,44 @@ def run(chk):
         c04.evaluate(sub, v, ("_FFT",))
         c14.check_extraction(sub, v, rule="R4")
         c11.check_monomial(sub, v, "torusPolynomialMulByXai", "coefsT", False)
+        # ---------------- R5 a gate is a function of its arguments: no function-local static of the gates or of the code they
+        # reach is initialised from run-time values (it would keep the value of the first call, e.g. the first key's parameters)
+        from sa.symexec import run_function as _run, Hooks as _Hooks, flat as _flat
+        gate_fns = [f for f in v.defined() if f.name.startswith("boots") and f.name[5:].isupper() and f.get("externC")]
+        closure = v.reachable([f.usr for f in gate_fns])
+        once = []
+        nstat = 0
+        for u in closure:
+            g = v.defs.get(u)
+            if g is None or not g.file.startswith(("libtfhe", "include")):
+                continue
+            has_static = any(isinstance(n_, dict) and n_.get("k") == "var" and n_.get("static") for n_ in walk(g.d.get("body")))
+            if not has_static:
+                continue
+            nstat += 1
+            eff_, _, _ = _run(v, g, hooks=_Hooks())
+            for x in _flat(eff_):
+                if x["e"] == "store" and x.get("once"):
+                    # an initialiser built only from members of `this` in a class whose every instance is a static object
+                    # constructed from literals (the FFT processors, fp1024(1024)) is the same in every call
+                    ats = [a for a in sym.atoms(x["val"]) if a[0] in ("sym", "fld", "var", "glob")]
+                    this0 = sym.idx(sym.sym("this"), sym.ZERO)
+                    only_this = bool(ats) and all(a == sym.sym("this") or (a[0] == "fld" and a[1] == this0) for a in ats)
+                    if only_this and g.get("record"):
+                        insts = [s_ for s_ in v.statics.values() if s_.get("definition") and re.sub(r"\bconst\b|\s", "", s_["t"]) == g.record]
+                        lit = insts and all(all(isinstance(a_, dict) and a_.get("k") == "int" or (isinstance(a_, dict) and "cv" in a_)
+                                                for a_ in (s_.get("init") or {}).get("args", [])) for s_ in insts)
+                        news = any(n_.get("k") == "new" and n_.get("alloc") == g.record for fn_ in v.defined() for n_ in walk(fn_.d.get("body")))
+                        if lit and not news:
+                            chk.note("%s: static %s is initialised once from members of the single literal-constructed %s object(s) %s" % (
+                                g.name, sym.show(x["lv"]), g.record, [s_["name"] for s_ in insts]))
+                            continue
+                    once.append("%s: static %s is initialised once with %s (line %s)" % (g.name, sym.show(x["lv"]), sym.show(x["val"])[:60], x["l"]))
+        chk.vcount(vn, "R5.functions_with_static_locals", nstat)
+        chk.require(not once, "R5", "no function-local static reachable from a gate is initialised from run-time values", where="libtfhe/boot-gates.cpp",
+                    ok="%d function(s) with static locals in the closure of the gates, all with constant initialisers" % nstat,
+                    bad="; ".join(sorted(set(once))[:3]) + " -- the value of the FIRST call is kept for every later call, whatever key or parameter set it is given",
+                    variant=vn)
         # ---------------- R2 encode / decode
         be = v.fn("bootsSymEncrypt")
         bps, _ = summ.pieces(v, be, hooks=NOINLINE)
